@@ -196,7 +196,7 @@ def h_presence(env):
                 rrep["wrapper " + f.name] = r.HasField(f.name)
             elif f.kind == "message" and f.label == "singular":
                 rrep["sub " + f.name] = r.HasField(f.name)
-        env.check("oracle:reference-HasField==prescribed", rrep == exp, "reference %r, prescribed %r" % (rrep, exp))
+        env.check("witness:reference-HasField==prescribed", rrep == exp, "reference %r, prescribed %r" % (rrep, exp))
 
 
 def units(tier):
